@@ -391,4 +391,17 @@ example : GoodImports (.mk .importDecl ["false", "evaluation"]
     [nList [.mk .importSpec ["false"] [nIdent "defineComponent" "b2", nNone]], nStr "vue", nNone]) = false := by
   decide
 
+/-- An entry whose key is computed at run time (`{ [key]: v }`, key not a literal) may define ANY option: the injected option is
+    placed BEFORE it, so whatever it defines wins (fix 80c9e93; the semantic theorem `C20_user_wins_semantic` is stated for
+    the predicate by which the insertion point is chosen, so it covers such entries like spreads). -/
+theorem C20_computed_key_entry_wins (kas cas ias : List String) (iks : List Node) (v : Node) (rest : List Node) (entry : Node) :
+    insertBeforeFirstSpread (.mk .kv kas [.mk .computed cas [.mk .ident ias iks], v] :: rest) entry
+      = entry :: .mk .kv kas [.mk .computed cas [.mk .ident ias iks], v] :: rest := by
+  simp [insertBeforeFirstSpread, isSpreadProp, isSpreadProp.dynKey, isLit]
+
+/-- a template literal without substitutions is an explicit spelling of the key: [`name`] is the user's `name` -/
+theorem C20_template_key_is_explicit (kas cas tas l1 l2 : List String) (tail cooked : String) (more : List String) (eks : List Node) (v : Node) :
+    isOptionNamed (.mk .kv kas [.mk .computed cas [.mk .tsTplLit tas [.mk .list l1 [], .mk .list l2 [.mk (.other "TemplateElement") (tail :: cooked :: more) eks]]], v]) cooked = true := by
+  simp [isOptionNamed]
+
 end VueJsx
